@@ -309,12 +309,18 @@ struct utcp_channel* utcp_channels_get_channel(struct utcp_channels* utcp_channe
 			utcp_log(Warning, "utcp_get_channel failed");
 		}
 	}
+	return utcp_channel;
+}
+
+// Record a close. Called when a close bunch is sent, or when it is handed to the application in sequence
+// (not when it is merely looked up: it may be a duplicate, or still be waiting for a missing predecessor).
+void utcp_channels_mark_close(struct utcp_channels* utcp_channels, struct utcp_channel* utcp_channel, struct utcp_bunch* utcp_bunch)
+{
 	if (utcp_bunch->bClose && utcp_channel)
 	{
 		mark_channel_close(utcp_channel, utcp_bunch->CloseReason);
 		utcp_channels->bHasChannelClose = true;
 	}
-	return utcp_channel;
 }
 
 void utcp_channels_on_ack(struct utcp_channels* utcp_channels, int32_t AckPacketId)
@@ -367,6 +373,13 @@ void utcp_delay_close_channel(struct utcp_channels* utcp_channels)
 		uint16_t ChIndex = utcp_channels->open_channels.channels[i - 1];
 		if (utcp_channels->Channels[ChIndex] && !utcp_channels->Channels[ChIndex]->bClose)
 			continue;
+
+		if (utcp_channels->Channels[ChIndex] && utcp_channels->Channels[ChIndex]->NumOutRec > 0)
+		{
+			// Reliable data (possibly the close bunch itself) still awaits acknowledgement: keep the channel so that it can be retransmitted.
+			utcp_channels->bHasChannelClose = true;
+			continue;
+		}
 
 		if (utcp_channels->Channels[ChIndex])
 		{
